@@ -335,6 +335,7 @@ type OpRow struct {
 	CUID   string
 	Seq    uint64
 	Type   string
+	L      uint64 // lamport of the operation's identifier
 }
 
 // Store is the projection of the database the properties speak about.
@@ -412,7 +413,7 @@ func (s *Stack) ReadStore() *Store {
 				op := od.GetOperation()
 				r := OpRow{ID: od.ID, DUID: od.DUID, ColNum: od.CollectionNum, Sseq: od.Sseq}
 				if op != nil && op.ID != nil {
-					r.CUID, r.Seq, r.Type = op.ID.CUID, op.ID.Seq, op.OpType.String()
+					r.CUID, r.Seq, r.Type, r.L = op.ID.CUID, op.ID.Seq, op.OpType.String(), op.ID.Lamport
 				}
 				st.Ops[od.DUID] = append(st.Ops[od.DUID], r)
 			}
